@@ -248,6 +248,13 @@ def run_special():
                     p.append(("call", "mc", [code, arg_expr(k1, 1, a)]))
                 p += [("label", "fwd"), ("data", "db", [N(0xF0)])]
                 progs.append((p, f"code-arg,arg2={k1}", True))
+    # the same block spliced TWICE by one body: each splice is a fresh expansion (own scopes, own expansion-time decisions)
+    for ctag, cblock in (("call", [("call", "nn", [N(0x61)])]), ("block", [("block", [("label", "sl"), ("data", "dw", [S("sl")])])]),
+                         ("if-over-acc", [("const", "acc2", ("b", "+", S("acc2"), N(1))), ("if", ("b", "-", S("acc2"), N(1)), [("data", "db", [N(0xBB)])], [("data", "db", [N(0xAA)])])]),
+                         ("for", [("for", "qs", N(0), N(2), [("data", "db", [S("qs")])])])):
+        p = base + [("const", "acc2", N(0)), ("macro", "twice", ["blk"], [("splice", "blk"), ("data", "db", [N(9)]), ("splice", "blk")]), ("org", N(ORG)),
+                    ("call", "twice", [("code", cblock)]), ("call", "nn", [N(0x62)]), ("call", "twice", [("code", cblock)])]
+        progs.append((p, f"block-spliced-twice-{ctag}", ctag != "if-over-acc"))
     # the body refers to a label that the spliced block defines (the block is expanded where it is spliced: same scope)
     code2 = ("code", [("label", "cl2"), ("data", "db", [N(0x66)])])
     for napps in (1, 2):
